@@ -404,6 +404,148 @@ pub fn gen_cell(rng: &mut Rng, b: &BuiltStack, with_insts: bool) -> RCell {
     cell
 }
 
+
+/// Intervals removed from signal track (l, t) by the cell's cuts and instance blockages
+fn track_removed(r: &RStack, cell: &RCell, l: usize, t: usize) -> Vec<(i64, i64)> {
+    let n = (t / r.metals[l].nsig()) as i64;
+    let mut v = cell.blocks(r, l, n);
+    for (cl, ct, xl, xt) in &cell.cuts {
+        if *cl == l && *ct == t {
+            let ctr = r.metals[*xl].center(*xt);
+            v.push((ctr - r.metals[l].cutsize / 2, ctr + r.metals[l].cutsize / 2));
+        }
+    }
+    v
+}
+
+
+/// Does some assignment already put a net on the wire piece of signal track (l, t) that contains `pos`? (or is there no such piece)
+fn piece_taken(r: &RStack, cell: &RCell, l: usize, t: usize, pos: i64) -> bool {
+    if l >= cell.metals {
+        return false;
+    }
+    let span = cell.span_breadth(r, l).0;
+    let piece = match pieces(span, &track_removed(r, cell, l, t)).into_iter().find(|(a, z)| pos >= *a && pos <= *z) {
+        Some(p) => p,
+        None => return false,
+    };
+    cell.assigns.iter().any(|(_, l1, t1, l2, t2)| {
+        (*l1 == l && *t1 == t && { let p = r.metals[*l2].center(*t2); p >= piece.0 && p <= piece.1 }) || (*l2 == l && *t2 == t && { let p = r.metals[*l1].center(*t1); p >= piece.0 && p <= piece.1 })
+    })
+}
+
+/// Turn a well-formed cell into an ill-formed one by one injected conflict. Returns the kind, or None if this cell offers no place for it.
+pub fn inject_conflict(rng: &mut Rng, b: &BuiltStack, cell: &mut RCell) -> Option<&'static str> {
+    let r = &b.r;
+    let ntracks = |cell: &RCell, l: usize| cell.nperiods(r, l) as usize * r.metals[l].nsig();
+    let adjacent = |rng: &mut Rng, l: usize, lim: usize| -> Option<usize> {
+        let mut c = Vec::new();
+        if l > 0 {
+            c.push(l - 1);
+        }
+        if l + 1 < lim {
+            c.push(l + 1);
+        }
+        if c.is_empty() { None } else { Some(*rng.pick(&c)) }
+    };
+    match rng.below(7) {
+        0 => {
+            if cell.cuts.is_empty() {
+                return None;
+            }
+            let c = *rng.pick(&cell.cuts);
+            cell.cuts.push(c);
+            Some("duplicate-cut")
+        }
+        1 => {
+            // an assignment whose crossing lies inside a cut of its own track
+            let cands: Vec<_> = cell.cuts.iter().filter(|c| c.0 < cell.metals && c.2 < cell.metals).cloned().collect();
+            if cands.is_empty() {
+                return None;
+            }
+            let (l, t, cl, c) = *rng.pick(&cands);
+            if piece_taken(r, cell, cl, c, r.metals[l].center(t)) {
+                return None; // would put a second net on the crossing track's piece: a different (out-of-domain) conflict
+            }
+            cell.assigns.push(("onCut".into(), l, t, cl, c));
+            Some("assignment-on-a-cut")
+        }
+        2 | 3 => {
+            // a cut (2) or an assignment (3) at a crossing strictly inside an instance's blockage
+            let kind = if rng.bool() { 2 } else { 3 };
+            if cell.insts.is_empty() || cell.metals < 2 {
+                return None;
+            }
+            for _ in 0..20 {
+                let l = rng.usize(cell.metals);
+                let cl = adjacent(rng, l, cell.metals)?;
+                let nt = ntracks(cell, l);
+                let nc = ntracks(cell, cl);
+                if nt == 0 || nc == 0 {
+                    continue;
+                }
+                let (t, c) = (rng.usize(nt), rng.usize(nc));
+                let n = (t / r.metals[l].nsig()) as i64;
+                let ctr = r.metals[cl].center(c);
+                let half = r.metals[l].cutsize / 2 + 1;
+                if cell.blocks(r, l, n).iter().any(|(a, z)| ctr - half > *a && ctr + half < *z) {
+                    if kind == 2 {
+                        cell.cuts.push((l, t, cl, c));
+                        return Some("cut-inside-a-blockage");
+                    } else {
+                        if piece_taken(r, cell, cl, c, r.metals[l].center(t)) || piece_taken(r, cell, l, t, ctr) {
+                            continue;
+                        }
+                        cell.assigns.push(("inBlk".into(), l, t, cl, c));
+                        return Some("assignment-inside-a-blockage");
+                    }
+                }
+            }
+            None
+        }
+        4 => {
+            // a cut on a track index beyond the outline
+            let l = rng.usize(cell.metals);
+            let cl = adjacent(rng, l, r.metals.len())?;
+            let (nt, nc) = (ntracks(cell, l), ntracks(cell, cl));
+            if nc == 0 {
+                return None;
+            }
+            cell.cuts.push((l, nt + rng.usize(3), cl, rng.usize(nc)));
+            Some("cut-on-track-beyond-outline")
+        }
+        5 => {
+            // a cut whose crossing track lies beyond the outline
+            let l = rng.usize(cell.metals);
+            let cl = adjacent(rng, l, r.metals.len())?;
+            let (nt, nc) = (ntracks(cell, l), ntracks(cell, cl));
+            if nt == 0 {
+                return None;
+            }
+            cell.cuts.push((l, rng.usize(nt), cl, nc + 1 + rng.usize(3)));
+            Some("cut-at-crossing-beyond-outline")
+        }
+        _ => {
+            // a second, different net on a wire piece that already carries one
+            if cell.assigns.is_empty() {
+                return None;
+            }
+            let (_, l1, t1, l2, t2) = rng.pick(&cell.assigns).clone();
+            let span = cell.span_breadth(r, l1).0;
+            let pos = r.metals[l2].center(t2);
+            let piece = pieces(span, &track_removed(r, cell, l1, t1)).into_iter().find(|(a, z)| pos > *a && pos < *z)?;
+            let nc = ntracks(cell, l2);
+            let others: Vec<usize> = (0..nc).filter(|c| *c != t2 && { let p = r.metals[l2].center(*c); p > piece.0 && p < piece.1 }).collect();
+            if others.is_empty() {
+                return None;
+            }
+            let c2 = *rng.pick(&others);
+            cell.assigns.push(("secondNet".into(), l1, t1, l2, c2));
+            Some("two-nets-on-one-wire-piece")
+        }
+    }
+}
+
 type OutRect = (usize, (i64, i64, i64, i64), Option<String>); // (layer slot: metal i => i, via i => 100+i), rect, net
 
 /// What the compiled cell must contain
@@ -488,6 +630,8 @@ impl Prop for C08 {
         "Layer stacks: 2-5 metals alternating direction, primitive pitches from {24,40,60,100}, layer pitch 1-4 primitive pitches, 2-8 track entries (gap/signal/power/ground) of even widths incl. Repeat patterns, offsets (incl. half-rail negative offsets), overlaps (incl. rails shared by adjacent periods), flipping on/off, symmetric and asymmetric patterns, even cut and via sizes. \
          Cells: rectangular outlines whose sides are multiples of every layer pitch, 1..all metals, 0-8 cuts at in-range crossings kept 1 unit clear of each other and of blockages, 0-8 assignments each on its own wire piece on both layers (TrackCross given in either orientation), 0-3 instances of lower-metal sub-cells on the pitch grid in all four reflections, with a strict gap between them. \
          Oracle (refs in props/c08.rs): the multiset of (layer, rectangle, net) of the compiled top cell, zero-area rectangles dropped, must equal: for every layer, period and track the maximal pieces of [0, span] minus cut intervals (centred on the flip-aware centre of the crossing track) minus instance extents along the track, at the track's flip-aware position and width; rails named VDD/VSS; the piece containing an assignment's crossing carries its net, no other signal piece carries a net; one via of the stack's size centred on each crossing. \
+         Generator ill-formed adds ONE conflict to a well-formed cell. In the statement's domain (in-range crossings): a duplicated cut, an assignment on a cut, an assignment inside an instance blockage -> an error is fine, an accepted cell must still match the oracle exactly (one via per assignment; a net only on pieces that cover the crossing); a cut strictly inside a blockage -> only an error is allowed (nothing can tile without overlap). \
+         Outside the domain (cut on a track or at a crossing beyond the outline, two different nets on one wire piece): outcome counted, not judged. \
          distinct_nontrivial = distinct (stack, cell) pairs with at least one cut, assignment or instance."
             .into()
     }
@@ -499,12 +643,30 @@ impl Prop for C08 {
         ]
     }
     fn plan(&self, tier: Tier) -> Vec<GenSpec> {
-        vec![GenSpec::random("plain", tier.pick(40_000, 400_000)), GenSpec::random("with-instances", tier.pick(30_000, 300_000))]
+        vec![
+            GenSpec::random("plain", tier.pick(40_000, 400_000)),
+            GenSpec::random("with-instances", tier.pick(30_000, 300_000)),
+            // a well-formed cell plus one injected conflict (see rule): error paths of the compiler
+            GenSpec::random("ill-formed", tier.pick(30_000, 300_000)),
+        ]
     }
     fn run_case(&self, cx: &mut Cx) {
         let b = gen_stack(&mut cx.rng);
-        let with_insts = cx.gen == "with-instances";
-        let cell = gen_cell(&mut cx.rng, &b, with_insts);
+        let ill = cx.gen == "ill-formed";
+        let with_insts = cx.gen == "with-instances" || (ill && cx.rng.bool());
+        let mut cell = gen_cell(&mut cx.rng, &b, with_insts);
+        let ill_kind = if ill {
+            match inject_conflict(&mut cx.rng, &b, &mut cell) {
+                Some(k) => Some(k),
+                None => {
+                    cx.count("ill_formed.no_place_for_conflict");
+                    return;
+                }
+            }
+        } else {
+            None
+        };
+        let cell = cell;
         cx.eval();
         if !cell.cuts.is_empty() || !cell.assigns.is_empty() || !cell.insts.is_empty() {
             cx.nontrivial(crate::rt::prng::strhash(&format!("{:?}{:?}", b.r, cell)));
@@ -524,7 +686,25 @@ impl Prop for C08 {
         let describe = || json!({"stack": format!("{:?}", b.r), "cell": format!("{:?}", cell)});
         let out = match guard(|| RawExporter::convert(lib, stack)) {
             Err(c) => {
-                cx.violation(&format!("panic|{}|{}", c.site(), c.norm_msg()), json!({"panic": c.msg, "at": format!("{}:{}", c.file, c.line), "case": describe()}));
+                if matches!(ill_kind, Some("cut-on-track-beyond-outline") | Some("cut-at-crossing-beyond-outline") | Some("two-nets-on-one-wire-piece")) {
+                    cx.count(&format!("ill_formed.out_of_domain_panicked.{}", ill_kind.unwrap()));
+                    return;
+                }
+                cx.violation(&format!("panic|{}|{}", c.site(), c.norm_msg()), json!({"panic": c.msg, "at": format!("{}:{}", c.file, c.line), "injected": ill_kind, "case": describe()}));
+                return;
+            }
+            Ok(Err(_)) if ill_kind.is_some() => {
+                cx.count(&format!("ill_formed.rejected.{}", ill_kind.unwrap()));
+                return;
+            }
+            Ok(Ok(_)) if ill_kind == Some("cut-inside-a-blockage") => {
+                // in the statement's domain (an in-range crossing), and no output can tile "without overlap": only an error is allowed
+                cx.violation("conflict-accepted|cut-inside-a-blockage", json!({"injected": ill_kind, "case": describe()}));
+                return;
+            }
+            Ok(Ok(_)) if matches!(ill_kind, Some("cut-on-track-beyond-outline") | Some("cut-at-crossing-beyond-outline") | Some("two-nets-on-one-wire-piece")) => {
+                // outside the statement's domain (out-of-range crossing / differing nets not separated by a cut): observed, not judged
+                cx.count(&format!("ill_formed.out_of_domain_accepted.{}", ill_kind.unwrap()));
                 return;
             }
             Ok(Err(e)) => {
@@ -538,7 +718,10 @@ impl Prop for C08 {
             }
             Ok(Ok(l)) => l,
         };
-        cx.count("compiled");
+        match ill_kind {
+            Some(k) => cx.count(&format!("ill_formed.compiled_and_compared.{}", k)),
+            None => cx.count("compiled"),
+        }
         let rawlib = out.read().unwrap();
         let top = match rawlib.cells.iter().find(|c| c.read().unwrap().name == "top") {
             Some(c) => c.clone(),
